@@ -3554,7 +3554,14 @@ func (a *Association) handleForwardTSN(chunkTSN *chunkForwardTSN) []*packet {
 	// corresponding streams so that the abandoned chunks can be removed
 	// from the reassemblyQueue.
 	for _, forwarded := range chunkTSN.streams {
-		if s, ok := a.streams[forwarded.identifier]; ok {
+		s, ok := a.streams[forwarded.identifier]
+		if !ok {
+			// The skipped message may be the first one the peer sent on this
+			// stream: the stream must exist to remember where ordered
+			// delivery resumes.
+			s = a.createStream(forwarded.identifier, true)
+		}
+		if s != nil {
 			s.handleForwardTSNForOrdered(forwarded.sequence)
 		}
 	}
@@ -3595,12 +3602,20 @@ func (a *Association) handleIForwardTSN(chunkTSN *chunkIForwardTSN) []*packet {
 	a.payloadQueue.advanceCumulativeTSN(chunkTSN.newCumulativeTSN)
 
 	for _, forwarded := range chunkTSN.streams {
-		if s, ok := a.streams[forwarded.identifier]; ok {
-			if forwarded.unordered {
-				s.handleForwardTSNForUnorderedMID(forwarded.messageIdentifier)
-			} else {
-				s.handleForwardTSNForOrderedMID(forwarded.messageIdentifier)
-			}
+		s, ok := a.streams[forwarded.identifier]
+		if !ok && !forwarded.unordered {
+			// The skipped message may be the first one the peer sent on this
+			// stream: the stream must exist to remember where ordered
+			// delivery resumes.
+			s = a.createStream(forwarded.identifier, true)
+		}
+		if s == nil {
+			continue
+		}
+		if forwarded.unordered {
+			s.handleForwardTSNForUnorderedMID(forwarded.messageIdentifier)
+		} else {
+			s.handleForwardTSNForOrderedMID(forwarded.messageIdentifier)
 		}
 	}
 
